@@ -155,7 +155,7 @@ def aggregates():
 
 
 def plan(ctx):
-  tasks = [('scalar', name) for name in scalar_builtins()]
+  tasks = [('scalar', name) for name in scalar_builtins()] + [('capture',)]
   for name in aggregates():
     n = 5 if ctx.thorough else 4
     if ctx.thorough and name.startswith(('ArgMinK', 'ArgMaxK', 'Array')): n = 6     # the heap logic: every sequence of <=6 rows
@@ -164,7 +164,34 @@ def plan(ctx):
   return tasks
 
 
+# builtins applied to columns of predicates whose names / argument names coincide with identifiers used inside the SQLite templates (t, n, value, key, x)
+CAPTURE = [
+  ('T(n: 3); T(n: 2);\nR(n, l) :- T(n:), l == Range(n);', [(2, LV((0, 1))), (3, LV((0, 1, 2)))]),
+  ('T(3); T(2);\nR(x, l) :- T(x), l == Range(x);', [(2, LV((0, 1))), (3, LV((0, 1, 2)))]),
+  ('T(n: 3); T(n: 2);\nR(n, s) :- T(n:), s == Size(Range(n + 1));', [(2, 3), (3, 4)]),
+  ('N(n: 3); N(n: 2);\nR(n, y) :- N(n:), y in Range(n), y > 0;', [(2, 1), (3, 1), (3, 2)]),
+  ('T(n: 3); T(n: 1);\nR(n, y) :- T(n:), y in Range(n);', [(1, 0), (3, 0), (3, 1), (3, 2)]),
+  ('T(value: 2, key: 1);\nR(value, e) :- T(value:, key:), e in [key, value + 10];', [(2, 1), (2, 12)]),
+  ('X(x: 2);\nR(x, e) :- X(x:), e in [x, x + 1];', [(2, 2), (2, 3)]),
+]
+
+
+def work_capture():
+  stats = dict(evaluations=0, compiles=0, comparisons=0, cases=0); viol = []
+  for body, want in CAPTURE:
+    text = '@Engine("sqlite");\n' + body + '\n'
+    out = impl.Compiled(text).sql('R'); stats['compiles'] += 1; stats['cases'] += 1
+    if out[0] != 'script':
+      viol.append(dict(sig='compile-%s/capture' % out[1], what='%s | %s' % (out[2][:160], body), case=dict(kind='capture', text=text))); continue
+    db = impl.Db({}); got = db.run(out); db.close(); stats['evaluations'] += 1; stats['comparisons'] += 1
+    rows = sorted(tuple(ng(v) for v in r) for r in got[2]) if got[0] == 'rows' else got
+    if rows != sorted(want):
+      viol.append(dict(sig='wrong-value/identifier-captured-by-template', what='%s -> %r, expected %r' % (body.replace('\n', ' '), rows, sorted(want)), case=dict(kind='capture', text=text)))
+  return dict(stats=stats, viol=viol, samples=[], keys=dict(outcomes=set()))
+
+
 def work(task):
+  if task[0] == 'capture': return work_capture()
   if task[0] == 'scalar': return work_scalar(task[1])
   return work_agg(*task[1:])
 
